@@ -3,6 +3,7 @@ C09 line-protocol driver:  `lake env lean --run Sc3Verif/C09/Driver.lean < ops`
 One op per line, one output line per op.  `reset` starts a new history.
 -/
 import Sc3Verif.C09.Model
+import Sc3Verif.C09.Users
 open Sc3Verif.C09
 
 def fmtItem : Option (Int × Nat) → String
@@ -40,12 +41,130 @@ def parseBeh (words : List String) : Nat → List Op := fun t =>
         | _ => none
     | _ => []
 
-partial def loop (h : IO.FS.Stream) (out : IO.FS.Stream) (q : TQ) : IO Unit := do
+/-! ### scheduler wrapper: clock tasks (beats, clock, task), stub clocks secs = offset + beats*scale -/
+
+structure Sch where
+  cs : CS := CS.init
+  cts : Array (Int × Nat × Nat) := #[]          -- ct id ↦ (beats, clock, task)
+  clocks : Array (Int × Int) := #[]             -- clock ↦ (scale, offset)
+  wakes : Array Nat := #[]                      -- task ↦ number of wake-ups so far
+
+def Sch.key (s : Sch) (ct : Nat) : Nat :=
+  match s.cts[ct]? with
+  | some (_, c, t) => c * 1000 + t
+  | none => 999999
+
+def Sch.secs (s : Sch) (clock : Nat) (beats : Int) : Int :=
+  match s.clocks[clock]? with
+  | some (scale, off) => off + beats * scale
+  | none => beats
+
+def Sch.setClock (s : Sch) (c : Nat) (scale off : Int) : Sch :=
+  let cl := if s.clocks.size ≤ c then s.clocks ++ Array.replicate (c + 1 - s.clocks.size) (1, 0) else s.clocks
+  { s with clocks := cl.set! c (scale, off) }
+
+/-- `ClockTask(beats, clock, task, scheduler)` -/
+def Sch.sched (s : Sch) (beats : Int) (clock task : Nat) : Sch :=
+  let ct := s.cts.size
+  let s := { s with cts := s.cts.push (beats, clock, task) }
+  { s with cs := s.cs.add s.key (s.secs clock beats) ct }
+
+/-- tempo change of a stub clock followed by `scheduler.retime(clock)` -/
+def Sch.tempo (s : Sch) (clock : Nat) (scale off : Int) : Sch :=
+  let s := s.setClock clock scale off
+  let f := fun ct => match s.cts[ct]? with
+    | some (b, c, _) => if c = clock then some (s.secs clock b) else none
+    | none => none
+  { s with cs := s.cs.retime f }
+
+inductive BOp where
+  | sched (beats : Int) (clock task : Nat)
+  | tempo (clock : Nat) (scale off : Int)
+
+/-- behaviours: (task, wake index) ↦ (delta?, ops) -/
+abbrev Beh := List ((Nat × Nat) × (Option Int × List BOp))
+
+def parseBOp (w : String) : Option BOp :=
+  match w.splitOn "." with
+  | ["s", b, c, t] => do some (.sched (← b.toInt?) (← c.toNat?) (← t.toNat?))
+  | ["t", c, sc, o] => do some (.tempo (← c.toNat?) (← sc.toInt?) (← o.toInt?))
+  | _ => none
+
+def parseBehS (words : List String) : Beh :=
+  words.filterMap fun w =>
+    match w.splitOn ":" with
+    | [t, i, d, ops] => do
+      let t ← t.toNat?; let i ← i.toNat?
+      let d := d.toInt?
+      some ((t, i), (d, (ops.splitOn ";").filterMap parseBOp))
+    | _ => none
+
+/-- `ClockScheduler.run` with `ClockTask._wakeup` -/
+def Sch.run (beh : Beh) : Nat → Sch → List (Int × Nat) → Sch × List (Int × Nat)
+  | 0, s, acc => (s, acc)
+  | fuel + 1, s, acc =>
+    if s.cs.q.empty then (s, acc)
+    else
+      let (cs', r) := s.cs.pop s.key
+      match r with
+      | none => ({ s with cs := cs' }, acc)
+      | some (time, ct) =>
+        let s := { s with cs := cs' }
+        match s.cts[ct]? with
+        | none => (s, acc)
+        | some (beats, clock, task) =>
+          let n := (s.wakes[task]?).getD 0
+          let wk := if s.wakes.size ≤ task then s.wakes ++ Array.replicate (task + 1 - s.wakes.size) 0 else s.wakes
+          let s := { s with wakes := wk.set! task (n + 1) }
+          let (delta, ops) := ((beh.find? fun e => e.1 == (task, n)).map Prod.snd).getD (none, [])
+          let s := ops.foldl (fun s op => match op with
+            | .sched b c t => s.sched b c t
+            | .tempo c sc o => s.tempo c sc o) s
+          let s := match delta with
+            | some d =>
+              let b' := beats + d
+              let s := { s with cts := s.cts.set! ct (b', clock, task) }
+              { s with cs := s.cs.add s.key (s.secs clock b') ct }
+            | none => s
+          Sch.run beh fuel s (acc ++ [(time, ct)])
+
+def fmtItems (l : List (Int × Nat)) : String :=
+  "[" ++ ",".intercalate (l.map fun (p, t) => s!"({p},{t})") ++ "]"
+
+def schLine (s : Sch) (words : List String) : Sch × String :=
+  match words with
+  | ["cs-clock", c, sc, o] =>
+    match c.toNat?, sc.toInt?, o.toInt? with
+    | some c, some sc, some o => (s.setClock c sc o, "ok")
+    | _, _, _ => (s, "bad-op")
+  | ["cs-sched", b, c, t] =>
+    match b.toInt?, c.toNat?, t.toNat? with
+    | some b, some c, some t => (s.sched b c t, "ok")
+    | _, _, _ => (s, "bad-op")
+  | ["cs-tempo", c, sc, o] =>
+    match c.toNat?, sc.toInt?, o.toInt? with
+    | some c, some sc, some o => (s.tempo c sc o, "ok")
+    | _, _, _ => (s, "bad-op")
+  | ["cs-iter"] => (s, fmtItems s.cs.q.iter)
+  | "cs-run" :: rest =>
+    let (s', woke) := Sch.run (parseBehS rest) 400 s []
+    (s', "woke " ++ fmtItems woke)
+  | _ => (s, "bad-op")
+
+partial def loop (h : IO.FS.Stream) (out : IO.FS.Stream) (q : TQ) (sch : Sch := {}) : IO Unit := do
   let line ← h.getLine
   if line.isEmpty then return ()
   if line.trimAscii.toString == "reset" then
     out.putStrLn "reset"
-    loop h out TQ.init
+    loop h out TQ.init {}
+  else if line.startsWith "cs-" then
+    let (sch', o) := schLine sch ((line.trimAscii.toString.splitOn " ").filter (· ≠ ""))
+    out.putStrLn o
+    loop h out q sch'
+  else if line.startsWith "score" then
+    let times := ((line.trimAscii.toString.splitOn " ").filter (· ≠ "")).drop 1 |>.filterMap String.toInt?
+    out.putStrLn ("listing " ++ fmtItems (Score.init.addAll times).listing)
+    loop h out TQ.init {}
   else if line.startsWith "drain" then
     let words := ((line.trimAscii.toString.splitOn " ").filter (· ≠ "")).drop 1
     let order := q.drain (parseBeh words) 200
